@@ -112,3 +112,5 @@
 (declare-fun sigParams (Ref) Ref) (declare-fun sigResults (Ref) Ref) (declare-fun sigVariadic (Ref) Bool) (declare-fun sigRecv (Ref) Ref)
 (declare-fun IsIterType (Iface) Bool)
 (declare-fun yieldFuncRewritten (Ref Ref World) World)
+; ghost mark: the statement passed the residual-yield check when it was pushed into a block (set only by block.push)
+(declare-fun CleanStmt (Iface) Bool)
